@@ -135,6 +135,9 @@ pub fn parse_opts(tok: &str) -> Options {
         return o;
     }
     for kv in tok.split(',') {
+        if kv == "-" || kv.is_empty() {
+            continue;
+        }
         let (k, v) = kv.split_once('=').unwrap();
         match k {
             "preset" => o = Options::from_preset(v.parse().unwrap()),
